@@ -256,6 +256,18 @@ def check_C05(tier):
                            "c1ccc2c(c1)c1nc3nc(nc4[nH]c(nc5nc(nc2[nH]1)c1ccccc15)c1ccccc41)c1ccccc13"]:
         cages.append(s)
         cages += gs.respell(s, rng, 25 if quick else 400)
+    # every small sigma skeleton of aromatic carbons (max degree 3), in several atom orders: odd rings, fused
+    # and bridged small systems where augmenting paths run through contracted odd cycles
+    graphs = gs.small_graphs(rng, 9 if quick else 13, 25 if quick else 300)
+    gsm = []
+    for n_, ed in graphs:
+        gsm += gs.aromatic_spellings(n_, ed, rng, 3 if quick else 6)
+    gsm = sorted(set(gsm))
+    rep.notes["small_aromatic_graphs"] = {"graphs": len(graphs), "spellings": len(gsm)}
+    for s_ in gsm:
+        rep.case(("graph", s_), nontrivial=True)
+    judge_roundtrips(rep, "small_graphs", gsm, "default", True, own)
+    judge_roundtrips(rep, "small_graphs_lax", gsm[::3], "default", False, own)
     corpus_trace(rep, "aromatic", quick, own, [relaxed_table()], per_file=(40 if quick else 600),
                  variants=(3 if quick else 6), flt=is_aromatic_smiles, extra=cages)
     corpus_trace(rep, "aromatic_nonstrict", quick, own, [relaxed_table()], per_file=0, variants=0, strict=False,
@@ -398,6 +410,18 @@ def check_C09(tier):
         for s in inputs[:: max(1, len(inputs) // 2)][:2]:
             rep.sample({"config": alpha, "text": s})
     rng = random.Random(seed() * 5 + 9)
+    # termination on small aromatic skeletons with odd and fused rings (matching with blossoms)
+    graphs = gs.small_graphs(rng, 10 if quick else 14, 30 if quick else 300)
+    old_budget = de.CALL_BUDGET
+    de.CALL_BUDGET = 15.0
+    try:
+        for n_, ed in graphs:
+            for s_ in gs.aromatic_spellings(n_, ed, rng, 2 if quick else 5):
+                rep.case(("graph", s_), nontrivial=True)
+                for msg in totality(s_, budget=10.0):
+                    rep.violation(msg, {"input": s_})
+    finally:
+        de.CALL_BUDGET = old_budget
     fuzz = []
     for _ in range(800 if quick else 8000):
         fuzz.append("".join(rng.choice(FUZZ_SMILES_CHARS) for _ in range(rng.randint(0, 30))))
